@@ -59,7 +59,9 @@ class Code(str):
             >>> Code("123").matches("1x3")
             True
         """
-        return all(map(lambda m, c: not m.isdigit() or m == c, mask, self))
+        # (a code which is shorter than the mask - a reply cut off by the
+        # end of the stream - does not match it)
+        return len(self) >= len(mask) and all(map(lambda m, c: not m.isdigit() or m == c, mask, self))
 
 
 class DataConnectionThrottleStreamIO(ThrottleStreamIO):
